@@ -145,7 +145,10 @@ func c18Groups(b []byte) ([]stdtextproto.MIMEHeader, error) {
 	}
 }
 
+var c18Outcome string // observation class of the last run (vacuity guard)
+
 func c18Run(scratch string, c c18Case) (string, string) {
+	c18Outcome = "no-observation"
 	dir, err := os.MkdirTemp(scratch, "c18-")
 	if err != nil {
 		return "HARNESS:tmpdir", err.Error()
@@ -230,6 +233,13 @@ func c18Run(scratch string, c c18Case) (string, string) {
 		if d.Attempt > 2 {
 			return "C18:message-resurrected", fmt.Sprintf("attempt %d after terminal outcome", d.Attempt)
 		}
+	}
+	{
+		named := 0
+		for _, d := range bounce.dels {
+			named += len(qhNamed(d.Body))
+		}
+		c18Outcome = fmt.Sprintf("attempts=%d reports=%d recipients-named=%d", len(tgt.dels), len(bounce.dels), named)
 	}
 	if len(bounce.dels) != len(expected) {
 		return "C18:report-count", fmt.Sprintf("%d report(s) handed to the bounce pipeline, expected %d (sender %q)", len(bounce.dels), len(expected), c.From)
@@ -525,6 +535,10 @@ func TestVerifC18(t *testing.T) {
 			r.HarnessError(fp + detail)
 		} else if fp != "" {
 			r.Violation(fp, detail+"\ncase: "+vx.JSON(c), c)
+		} else if strings.HasPrefix(c.BounceFault, "queue") {
+			r.Outcome("report-into-queue chain checked")
+		} else {
+			r.Outcome(c18Outcome)
 		}
 		if idx%1009 == 0 {
 			r.Sample(c)
